@@ -33,10 +33,29 @@ def variant_noise(rng, p=0.3, other_strum=True, existing=""):
 
 
 def enum_noise(rng, p=0.3):
+    """attribute lines to put BEFORE the #[derive(..)] line of an enum (helper attributes may not precede it)"""
     out = []
     if rng.random() < p:
         out.append(rng.choice(["/// A documented enum.", "#[allow(dead_code)]", "#[allow(clippy::enum_variant_names)]",
                                "#[cfg_attr(all(), allow(unused))]"]))
+    return out
+
+
+def enum_strum_noise(rng, p=0.12):
+    """strum attributes to put AFTER the derive line: the crate path override pointing at the crate's real
+    name is a no-op"""
+    if rng.random() < p:
+        return [rng.choice(['#[strum(crate = "strum")]', '#[strum(crate = "::strum")]'])]
+    return []
+
+
+def trailing_commas(rng, lines, p=0.15):
+    """`#[strum(a, b,)]`: a trailing comma inside the list is legal"""
+    out = []
+    for l in lines:
+        if l.startswith("#[strum(") and l.endswith(")]") and not l.endswith(",)]") and rng.random() < p:
+            l = l[:-2] + ",)]"
+        out.append(l)
     return out
 
 
@@ -62,6 +81,6 @@ def fold_disabled(rng, lines):
         out.remove("#[strum(disabled)]")
     else:
         j = out.index("#[strum(disabled)]")
-        out[j] = rng.choice(['#[strum(disabled, props(k = "v"))]', '#[strum(props(k = "v"), disabled)]',
+        out[j] = rng.choice(['#[strum(disabled, props(k = "v"))]', '#[strum(props(k = "v"), disabled)]', '#[strum(disabled,)]',
                              '#[strum(props(gone = true), disabled)]'])
     return out
